@@ -28,14 +28,15 @@ RULE = {
            "switched threads at least once while >=2 threads were still running; distinct = distinct sequences of "
            "(from-thread, to-thread, function, relative line) at the switch points",
 }
-FAULT_KINDS = {"C19": ["preemption", "lock_contention", "crypt_static_buffer_yield"]}
+FAULT_KINDS = {"C19": ["preemption", "lock_contention", "crypt_static_buffer_yield", "import_lock_wait"]}
 COMPONENTS = {
     "real": ["all passlib code (context, registry, utils.handlers backend machinery, utils.binary lazy engines, crypto.digest, handlers)",
              "CPython threads (real threading.Thread, one runnable at a time)", "crypt(3), bcrypt wheel, hashlib"],
     "stub": ["thread scheduling (baton passing at sys.settrace line/opcode events in /repo frames)",
-             "passlib.utils._safe_crypt_lock and passlib.utils.handlers._backend_lock (cooperative SimLocks with the same semantics)",
+             "every lock object passlib/libpass keep (module globals, class attributes: cooperative SimLocks with the same semantics)",
+             "importlib._bootstrap._ModuleLock's waiting step (cooperative, in runs with preempt_imports; bookkeeping and deadlock detection are importlib's own)",
              "T8 only: crypt(3)'s static result buffer (modelled: write, yield, read)"],
-    "unavailable": ["free-threaded interpreter", "pre-emption inside C code and inside module-level code of an import"],
+    "unavailable": ["free-threaded interpreter", "pre-emption inside C code"],
 }
 ASSUMPTIONS = {"*": ["pre-emption only between two Python source lines (bytecodes in hot functions, thorough tier); CPython promises no "
                      "atomicity beyond one bytecode, so every explored interleaving is feasible",
@@ -164,7 +165,9 @@ def generate(rng, prop, tier):
                 name = rng.choice(names)
                 spelled = rng.choice([name, name, name, name.replace("_", "-"), name.upper()])
                 k = rng.choice(["get_crypt_handler", "hash_attr", "new_context", "get_crypt_handler"])
-                calls.append([k, spelled if rng.random() < 0.3 and k != "hash_attr" else name])
+                if name in KNOWN and rng.random() < 0.35:
+                    k = "reg_verify"  # first import + first backend choice + lazily resolved wrapped handler, all in the threads
+                calls.append([k, spelled if rng.random() < 0.3 and k not in ("hash_attr", "reg_verify") else name])
             threads.append(calls)
     elif t == "T6":
         schemes = rng.sample(CTX_SCHEMES, rng.randint(1, 4))
@@ -459,6 +462,11 @@ def _call(env, k, spec):
 
         h = get_crypt_handler(spec[1])
         return ["obj", h.name, id(h)]
+    if k == "reg_verify":
+        from passlib.registry import get_crypt_handler
+
+        h = get_crypt_handler(spec[1])
+        return [h.verify(PW, KNOWN[spec[1]]), h.verify("not-the-password", KNOWN[spec[1]]), h.identify(KNOWN[spec[1]])]
     if k == "hash_attr":
         import passlib.hash
 
